@@ -20,7 +20,9 @@ VARIABLE case
 NoName == "_"                                  \* stands for None
 BaseVars == {[shape |-> <<>>, names |-> <<>>], [shape |-> <<2>>, names |-> <<"x">>], [shape |-> <<2>>, names |-> <<NoName>>],
              [shape |-> <<2, 3>>, names |-> <<"x", "y">>], [shape |-> <<2, 3>>, names |-> <<NoName, "y">>],
-             [shape |-> <<2, 3>>, names |-> <<"x", NoName>>]}
+             [shape |-> <<2, 3>>, names |-> <<"x", NoName>>],
+             \* partially annotated variables: fewer names than dimensions (the missing trailing names mean "not partitioned")
+             [shape |-> <<2, 3>>, names |-> <<"x">>], [shape |-> <<2, 3>>, names |-> <<>>], [shape |-> <<2>>, names |-> <<>>]}
 InsertAt(q, pos, v) == [i \in 1..(Len(q) + 1) |-> IF i < pos + 1 THEN q[i] ELSE IF i = pos + 1 THEN v ELSE q[i - 1]]
 RemoveAt(q, pos) == [i \in 1..(Len(q) - 1) |-> IF i < pos + 1 THEN q[i] ELSE q[i + 1]]
 \* Partitioned.add_axis: pad with None up to index, then list.insert(index, name)   (index >= 0: transforms pass normalised axes)
@@ -40,11 +42,16 @@ Full(c) == IF c.outer = "none" THEN Inner(c) ELSE AddAxis(Inner(c), c.k2, "batch
 PosOf(q, x) == CHOOSE i \in 1..Len(q) : q[i] = x
 AxisLaws == Mode = "axis" =>
   LET f == Full(case) IN
-    /\ Aligned(f)
+    /\ (Aligned(case.v) => Aligned(f))
+    /\ Len(f.names) <= Len(f.shape)
     /\ PosOf(f.names, "layers") = PosOf(f.shape, 5)                     \* the name sits where the stacked dimension sits
     /\ (case.outer # "none" => PosOf(f.names, "batch") = PosOf(f.shape, 7))
-    /\ (case.outer # "none" => RemoveAxis(RemoveAxis(f, case.k2), case.k1) = [shape |-> case.v.shape, names |-> Pad(case.v.names, case.k1)]
-                                 \/ Len(case.v.names) < case.k1)
+    \* slicing both axes away gives back the variable: its shape, and its names possibly followed by padding (None) entries
+    /\ (case.outer # "none" =>
+          LET r == RemoveAxis(RemoveAxis(f, case.k2), case.k1) IN
+            /\ r.shape = case.v.shape
+            /\ Len(r.names) >= Len(case.v.names) /\ SubSeq(r.names, 1, Len(case.v.names)) = case.v.names
+            /\ \A i \in (Len(case.v.names) + 1)..Len(r.names) : r.names[i] = NoName)
     /\ RemoveAxis(Inner(case), case.k1).shape = case.v.shape
 
 (***************************************************************************)
